@@ -1,2 +1,169 @@
-(* C07 — placeholder while the correspondence is brought up. *)
-From AG Require Import Scalars.
+(* C07 — built-in scalar types accept exactly their domain and round-trip.
+   Only property theorems here: each is closed by [exact], its statement is
+   pinned by [Check] and its assumptions are printed.  The integer table
+   [int_impls_gen] is regenerated from src/types/external/integers.rs and
+   non_zero_integers.rs on every run. *)
+From AG Require Import Scalars ScalarsProofs ScalarsFloatProofs.
+Open Scope Z_scope.
+
+(* --- integers (all widths, NonZero forms) --------------------------------- *)
+(* the table has exactly one row per integer scalar type *)
+Theorem C07_int_table_complete :
+  table_shape =
+  [(0, I8, false); (1, I16, false); (2, I32, false); (3, I64, false); (4, Isize, false);
+   (5, U8, false); (6, U16, false); (7, U32, false); (8, U64, false); (9, Usize, false);
+   (10, I8, true); (11, I16, true); (12, I32, true); (13, I64, true); (14, Isize, true);
+   (15, U8, true); (16, U16, true); (17, U32, true); (18, U64, true); (19, Usize, true)]%N.
+Proof. exact table_complete. Qed.
+
+(* accepted exactly: v is the integer x, x in the Rust type's range, x <> 0 for NonZero *)
+Theorem C07_int_exact : forall id im v x,
+    assoc id int_impls_gen = Some im -> wf_gv v = true ->
+    (parse_int im v = Ok x <-> denotes_int (ii_prim im) (ii_nonzero im) v x).
+Proof. exact int_exact. Qed.
+
+(* every other value is rejected with an error (no panic, e.g. from NonZero::new(..).unwrap()) *)
+Theorem C07_int_rejects : forall id im v,
+    assoc id int_impls_gen = Some im -> wf_gv v = true ->
+    (forall x, ~ denotes_int (ii_prim im) (ii_nonzero im) v x) ->
+    exists c, parse_int im v = Err c.
+Proof. exact int_rejects. Qed.
+
+(* integral floats do not denote integers *)
+Theorem C07_int_rejects_float : forall id im b,
+    assoc id int_impls_gen = Some im -> exists c, parse_int im (GFloat b) = Err c.
+Proof. exact int_rejects_float. Qed.
+
+Theorem C07_int_roundtrip : forall id im x,
+    assoc id int_impls_gen = Some im -> in_ty (ii_prim im) (ii_nonzero im) x = true ->
+    parse_int im (to_value_int im x) = Ok x.
+Proof. exact int_roundtrip. Qed.
+
+(* --- bool, String (and Box<str>, Arc<str>), char --------------------------- *)
+Theorem C07_bool_exact : forall v b, parse_bool v = Ok b <-> v = GBool b.
+Proof. exact bool_exact. Qed.
+Theorem C07_bool_rejects : forall v, (forall b, v <> GBool b) -> exists c, parse_bool v = Err c.
+Proof. exact bool_rejects. Qed.
+Theorem C07_string_exact : forall v s, parse_string v = Ok s <-> v = GStr s.
+Proof. exact string_exact. Qed.
+Theorem C07_string_rejects : forall v, (forall s, v <> GStr s) -> exists c, parse_string v = Err c.
+Proof. exact string_rejects. Qed.
+Theorem C07_char_exact : forall v c, parse_char v = Ok c <-> v = GStr [c].
+Proof. exact char_exact. Qed.
+Theorem C07_char_rejects : forall v, (forall c, v <> GStr [c]) -> exists e, parse_char v = Err e.
+Proof. exact char_rejects. Qed.
+
+(* --- ID -------------------------------------------------------------------- *)
+Theorem C07_id_exact : forall v s,
+    known_parse SID v = 0%N -> (parse_id v = Ok s <-> denotes_id v s).
+Proof. exact id_exact. Qed.
+Theorem C07_id_rejects : forall v, (forall s, ~ denotes_id v s) -> exists c, parse_id v = Err c.
+Proof. exact id_rejects. Qed.
+(* known finding: an integer above i64::MAX denotes an ID and is rejected *)
+Theorem C07_id_above_i64_refuted :
+  exists v s, wf_gv v = true /\ denotes_id v s /\ parse_id v = Err E_TYPE /\ known_parse SID v = 2%N.
+Proof. exact id_above_i64_refuted. Qed.
+
+(* --- derived enums (any item table with distinct names) ---------------------- *)
+Theorem C07_enum_exact : forall items v x,
+    NoDup (map fst items) -> (parse_enum items v = Ok x <-> denotes_enum items v x).
+Proof. exact enum_exact. Qed.
+Theorem C07_enum_rejects : forall items v,
+    (forall x, ~ denotes_enum items v x) -> exists c, parse_enum items v = Err c.
+Proof. exact enum_rejects. Qed.
+
+(* --- floats ------------------------------------------------------------------ *)
+Theorem C07_f64_accepts : forall v, (exists b, parse_f64 v = Ok b) <-> is_number v.
+Proof. exact f64_accepts. Qed.
+Theorem C07_f32_accepts_partial : forall v, (exists b, parse_f32 v = Ok b) <-> is_number v.
+Proof. exact f32_accepts. Qed.
+Theorem C07_float_rejects : forall v,
+    ~ is_number v -> parse_f64 v = Err E_TYPE /\ parse_f32 v = Err E_TYPE.
+Proof. exact float_rejects. Qed.
+(* widening any finite f32 to f64 and narrowing it again is the identity (all 2^32 - 2^24 patterns) *)
+Theorem C07_f32_bits_roundtrip : forall b,
+    (b < 4294967296)%N -> finite b32 (Z.of_N b) = true -> f64_to_f32 (f32_to_f64 b) = b.
+Proof. exact f32_bits_roundtrip. Qed.
+(* known findings *)
+Theorem C07_f32_overflow_refuted :
+  exists v, wf_gv v = true /\ known_parse SF32 v = 1%N /\
+            parse_f32 v = Ok 2139095040%N /\
+            spec_float_ok b32 v (parse_f32 v) = false /\
+            finite b32 2139095040 = false.
+Proof. exact f32_overflow_refuted. Qed.
+Theorem C07_float_nonfinite_refuted :
+  exists b, (b < 2 ^ 64)%N /\ known_tv SF64 (RF b) = 3%N /\ parse_f64 (to_value_f64 b) <> Ok b.
+Proof. exact float_nonfinite_refuted. Qed.
+Theorem C07_float_nonfinite_lost :
+  (forall b, finite b64 (Z.of_N b) = false ->
+     to_value_f64 b = GNull /\ parse_f64 (to_value_f64 b) = Err E_TYPE) /\
+  (forall b, finite b32 (Z.of_N b) = false ->
+     to_value_f32 b = GNull /\ parse_f32 (to_value_f32 b) = Err E_TYPE).
+Proof. exact float_nonfinite_lost. Qed.
+
+(* --- every scalar in one statement (what the correspondence files evaluate) --- *)
+(* input coercion of every non-float scalar answers what the specification
+   demands, for every value, outside the known class (ID, integer > i64::MAX) *)
+Theorem C07_parse_meets_spec : forall sc v,
+    is_float_scalar sc = false -> wf_gv v = true -> known_parse sc v = 0%N ->
+    match sc with SInt id => row_ty id <> None | _ => True end ->
+    spec_parse_ok sc v (parse_scalar sc v) = true.
+Proof. exact scalar_parse_meets_spec. Qed.
+
+(* every scalar incl. f32/f64: serialising any value of the Rust type and coercing
+   the result yields that value, outside the known class (non-finite floats) *)
+Theorem C07_roundtrip : forall sc x,
+    wf_rv sc x = true -> known_tv sc x = 0%N -> enum_names_distinct sc ->
+    exists v, to_value_scalar sc x = Ok v /\ parse_scalar sc v = Ok x.
+Proof. exact scalar_roundtrip. Qed.
+
+(* non-vacuity: the hypotheses are met by non-trivial inputs *)
+Theorem C07_nonvacuous :
+  (exists im, assoc 10%N int_impls_gen = Some im /\ ii_prim im = I8 /\ ii_nonzero im = true /\
+              parse_int im (GInt (-128)) = Ok (-128) /\ parse_int im (GInt 0) = Err E_RANGE /\
+              parse_int im (GInt 128) = Err E_RANGE) /\
+  wf_rv SF32 (RF 1%N) = true /\ known_tv SF32 (RF 1%N) = 0%N /\
+  wf_rv (SEnum [([82; 69; 68]%N, 0%N); ([65]%N, 1%N)]) (RE 1%N) = true /\
+  enum_names_distinct (SEnum [([82; 69; 68]%N, 0%N); ([65]%N, 1%N)]).
+Proof. exact nonvacuous. Qed.
+
+Check C07_int_exact : forall id im v x,
+    assoc id int_impls_gen = Some im -> wf_gv v = true ->
+    (parse_int im v = Ok x <-> denotes_int (ii_prim im) (ii_nonzero im) v x).
+Check C07_int_roundtrip : forall id im x,
+    assoc id int_impls_gen = Some im -> in_ty (ii_prim im) (ii_nonzero im) x = true ->
+    parse_int im (to_value_int im x) = Ok x.
+Check C07_roundtrip : forall sc x,
+    wf_rv sc x = true -> known_tv sc x = 0%N -> enum_names_distinct sc ->
+    exists v, to_value_scalar sc x = Ok v /\ parse_scalar sc v = Ok x.
+Check C07_parse_meets_spec : forall sc v,
+    is_float_scalar sc = false -> wf_gv v = true -> known_parse sc v = 0%N ->
+    match sc with SInt id => row_ty id <> None | _ => True end ->
+    spec_parse_ok sc v (parse_scalar sc v) = true.
+
+Print Assumptions C07_int_table_complete.
+Print Assumptions C07_int_exact.
+Print Assumptions C07_int_rejects.
+Print Assumptions C07_int_rejects_float.
+Print Assumptions C07_int_roundtrip.
+Print Assumptions C07_bool_exact.
+Print Assumptions C07_bool_rejects.
+Print Assumptions C07_string_exact.
+Print Assumptions C07_string_rejects.
+Print Assumptions C07_char_exact.
+Print Assumptions C07_char_rejects.
+Print Assumptions C07_id_exact.
+Print Assumptions C07_id_rejects.
+Print Assumptions C07_id_above_i64_refuted.
+Print Assumptions C07_enum_exact.
+Print Assumptions C07_enum_rejects.
+Print Assumptions C07_f64_accepts.
+Print Assumptions C07_f32_accepts_partial.
+Print Assumptions C07_float_rejects.
+Print Assumptions C07_f32_bits_roundtrip.
+Print Assumptions C07_f32_overflow_refuted.
+Print Assumptions C07_float_nonfinite_refuted.
+Print Assumptions C07_float_nonfinite_lost.
+Print Assumptions C07_parse_meets_spec.
+Print Assumptions C07_roundtrip.
+Print Assumptions C07_nonvacuous.
